@@ -21,7 +21,7 @@ ASSUMPTIONS = [
 ]
 SHARDS = {"quick": 4, "thorough": 16}
 
-FAMILIES = ["seq-int", "zero-padded", "uuid-scattered", "uuid-sequential", "email", "two-field", "builtin-names"]
+FAMILIES = ["seq-int", "zero-padded", "uuid-scattered", "uuid-sequential", "email", "two-field", "builtin-names", "twin-fields"]
 SALTS = [None, "", "s", "exp_2024_checkout_button_colour_v3", "é-salt", "A", "B", "salt1", "salt2", "x" * 64,
          "https://exp.example/checkout/v1", "https://exp.example/checkout/v2", "a /* b */ c1", "a /* b */ c2", "{uid}", "%s"]
 REGIONS = ["EU-W", "EU-E", "US-W", "US-E", "APAC"]
@@ -50,6 +50,9 @@ def _units(family, offset, n):
     if family == "builtin-names":
         # a multi-field key whose fields are named like Python builtins, one of them the other plus an underscore (id / id_)
         return [{"id": (offset + i) // 5, "id_": REGIONS[(offset + i) % 5], "type": "t%d" % ((offset + i) % 3)} for i in range(n)]
+    if family == "twin-fields":
+        # personal accounts: the account id IS the user id - two key fields that always carry the same value
+        return [{"account_id": offset + i, "user_id": offset + i} for i in range(n)]
     raise ValueError(family)
 
 
@@ -83,7 +86,7 @@ def cases(draw, n):
     case = {"cond": draw(st.sampled_from([0, 0, 1, 2, 3, 4])), "second": draw(st.sampled_from(["fresh", "recompile", "recompile"])), "family": fam, "offset": draw(st.sampled_from([0, 1, 1000, 10 ** 6, 10 ** 9, 123456789, 2 ** 31, 10 ** 12, 2 ** 53 - 7, 2 ** 60,
                                                            2 ** 63 - 200000, 1541815603606036480, 10 ** 24])), "weights": ws,
             "salts": [s1, s2], "n": n}
-    if fam == "builtin-names" and case["cond"] == 3:
+    if fam in ("builtin-names", "twin-fields") and case["cond"] == 3:
         case["cond"] = 1
     if len(ws) >= 3 and draw(st.integers(0, 3)) == 0:
         # a label declared on several slices owns the sum of its slices (also 1 vs 1.0, which compare equal)
@@ -95,10 +98,10 @@ def cases(draw, n):
 def _text(case, salt, ws):
     labels = [M.dec(x) for x in case["labels"]] if case.get("labels") else ["g%d" % j for j in range(len(ws))]
     body = M.ret([(M.lit_of(l), w) for l, w in zip(labels, ws)])
-    sp = ["region", "uid"] if case["family"] == "two-field" else ["id", "id_", "type"] if case["family"] == "builtin-names" else ["uid"]
+    sp = ["region", "uid"] if case["family"] == "two-field" else ["id", "id_", "type"] if case["family"] == "builtin-names" else ["account_id", "user_id"] if case["family"] == "twin-fields" else ["uid"]
     if case.get("cond"):
         # the splitting field is ALSO read by a condition (that never diverts this population): still part of the key
-        f = "region" if case["family"] == "two-field" and case["cond"] == 2 else "id" if case["family"] == "builtin-names" else "uid"
+        f = "region" if case["family"] == "two-field" and case["cond"] == 2 else "id" if case["family"] == "builtin-names" else "user_id" if case["family"] == "twin-fields" else "uid"
         body = M.if_([(M.cmp_(M.ident(f), "in", M.tup([M.lit_str("qa-account-1"), M.lit_str("qa-account-2")])),
                        M.ret([(M.lit_str("qa"), "1")]))], body)
     if case.get("cond") == 3:
@@ -286,7 +289,7 @@ def fixed_cases(n):
                "salts": [s2, s1], "n": n}
     yield {"second": "fresh", "family": "seq-int", "offset": 0, "weights": ["2", "1", "1", "2"], "salts": ["A", "B"], "n": n,
            "labels": [M.enc(x) for x in ["control", "treatment", "holdout", "treatment"]]}
-    for fam, c in (("seq-int", 1), ("email", 1), ("two-field", 2), ("two-field", 1), ("uuid-sequential", 1), ("zero-padded", 3), ("two-field", 3), ("seq-int", 4), ("email", 4), ("two-field", 5), ("builtin-names", 0), ("builtin-names", 1), ("seq-int", 6), ("email", 6), ("two-field", 7)):
+    for fam, c in (("seq-int", 1), ("email", 1), ("two-field", 2), ("two-field", 1), ("uuid-sequential", 1), ("zero-padded", 3), ("two-field", 3), ("seq-int", 4), ("email", 4), ("two-field", 5), ("builtin-names", 0), ("builtin-names", 1), ("seq-int", 6), ("email", 6), ("two-field", 7), ("twin-fields", 0), ("twin-fields", 1)):
         yield {"cond": c, "second": "fresh", "family": fam, "offset": 5, "weights": ["1", "3"], "salts": ["A", "B"], "n": n}
     yield {"second": "fresh", "family": "email", "offset": 7, "weights": ["1", "2", "1"], "salts": ["A", "B"], "n": n,
            "labels": [M.enc(x) for x in ["B", "B'", '"B']]}
